@@ -262,19 +262,30 @@ theorem insert_position (d : List (String × Nat)) (i : Nat) (k : String) (v : N
     keysOf (odictInsert d i k v) = listInsertAt ((keysOf d).filter (fun x => !(x == k))) i k :=
   keysOf_odictInsert d i k v
 
+/-- a field type with an `order` attribute is taken out of the declared sequence and inserted at that position
+    (the documented way to deviate from the declaration order); without such field types the sequence is kept -/
+theorem explicit_order_only (h : Heap) (fs : List (String × Nat)) (hn : ∀ p, p ∈ fs → orderOf h p.2 = none) :
+    applyOrder h fs = fs := applyOrder_none h fs hn
+
+/-- `child_attrs_noexc`: `child_attrs_all` gets `exc=True`, the named entries get `exc=False` and take the place of
+    the `child_attrs` entries of the same name; without it both dicts are used as given -/
+theorem noexc_none (ca : Option (List (String × Kw))) (caa : Option Kw) : noexcPrep ca caa none = (ca, caa) := rfl
+
 /-- a class statement lists the fields of its `__mixin__` bases first (in base order, each mixin's flat fields in
     their own order), then its own fields in the order written (those the mixins do not define); that order does not
     depend on how an unordered container would enumerate them (hash seed) -/
 theorem class_statement_order (base : Option Nat) (name : String) (ns : Option String) (fields : List (String × Nat))
     (perm : List Nat) (attrs : Option Kw) (mixins : List Nat) (asMixin : Bool) (h h' : Heap) (id : Nat)
     (hn : (keysOf fields).Nodup) (hm : (keysOf (mixinFields h mixins)).Nodup)
+    (hord : ∀ p, p ∈ prependMixins facts15 (mixinFields h mixins) (declaredFields facts15 perm fields) →
+      orderOf h p.2 = none)
     (hr : subclassOp facts15 base name ns fields perm attrs mixins asMixin h = .ok h' id) :
     ∃ cl, h'.cls[id]? = some cl ∧ keysOf cl.fields
       = keysOf (mixinFields h mixins)
         ++ (keysOf fields).filter (fun k => !(keysOf (mixinFields h mixins)).contains k) := by
   obtain ⟨cl, h1, h2, _⟩ := subclassOp_result facts15 base name ns fields perm attrs mixins asMixin h h' id hr
   refine ⟨cl, h1, ?_⟩
-  rw [h2]
+  rw [h2, applyOrder_none h _ hord]
   have hd : declaredFields facts15 perm fields = odictFromList fields := by
     simp only [declaredFields]
     have : facts15.dictOrdered = true := by decide
@@ -316,12 +327,12 @@ theorem flat_then_own (fuel : Nat) (h : Heap) (c : Nat) (cl : Cls) (hc : h.cls[c
 
 def s1 := apply facts15 1000 (initHeap facts15) (.subclass none "A" (some "ns") [("a", 0), ("b", 1)] [] none [] false)
 def s2 := apply facts15 1000 s1.heap (.subclass (some 12) "B" none [("c", 3)] [] (some [("foo", .int 42)]) [] false)
-def s3 := apply facts15 1000 s2.heap (.customize 12 [("min_occurs", .int 1)] none none none)
-def s4 := apply facts15 1000 s3.heap (.customize 13 [] none (some [("nillable", .bool false)]) none)
+def s3 := apply facts15 1000 s2.heap (.customize 12 [("min_occurs", .int 1)] none none none none none)
+def s4 := apply facts15 1000 s3.heap (.customize 13 [] none (some [("nillable", .bool false)]) none none none)
 def s5 := apply facts15 1000 s4.heap (.append 13 "w" 1)
 def s6 := apply facts15 1000 s5.heap (.array 0 none [] false false)
 def s7 := apply facts15 1000 s6.heap (.mandatory 21)
-def s8 := apply facts15 1000 s7.heap (.customize 3 [("ge", .int 0)] none none none)
+def s8 := apply facts15 1000 s7.heap (.customize 3 [("ge", .int 0)] none none none none none)
 
 example : s1.heap.cls.length = 13 ∧ s3.heap.cls.length = 15 ∧ s4.heap.cls.length = 20 := by decide +kernel
 -- B's variants are B's, A's are A's
@@ -339,6 +350,20 @@ example : ((s7.heap.cls[23]?).bind (fun c => (c.fields.head?).map (fun p => attr
 -- Integer32(ge=0) keeps the length guard of Integer32
 example : attrOf s8.heap 25 "max_str_len" = attrOf s8.heap 3 "max_str_len" ∧ attrOf s8.heap 25 "ge" = some (.int 0) := by
   decide +kernel
+-- child_attrs_noexc, `order`, serializer_attrs on a concrete history
+def n1 := apply facts15 1000 (initHeap facts15) (.subclass none "NA" (some "ns") [("a", 0), ("b", 1), ("c", 0)] [] none [] false)
+def n2 := apply facts15 1000 n1.heap (.customize 12 [] (some [("b", [("min_occurs", .int 2)])]) (some [("min_occurs", .int 1)]) none
+  (some [("a", [("max_occurs", .int 2)])]) none)
+example : (n2.heap.cls[13]?).map (fun c => c.fields.map (fun p => (p.1, attrOf n2.heap p.2 "exc", attrOf n2.heap p.2 "min_occurs")))
+    = some [("a", some (.bool false), some (.int 1)), ("b", some (.bool true), some (.int 2)), ("c", some (.bool true), some (.int 1))] := by
+  decide +kernel
+def o1 := apply facts15 1000 (initHeap facts15) (.customize 1 [("order", .int 0)] none none none none none)
+def o2 := apply facts15 1000 o1.heap (.customize 0 [("order", .int 1)] none none none none none)
+def o3 := apply facts15 1000 o2.heap (.subclass none "OB" (some "ns") [("x", 0), ("y", 12), ("z", 13), ("w", 1)] [] none [] false)
+example : (o3.heap.cls[14]?).map (fun c => keysOf c.fields) = some ["y", "z", "x", "w"] := by decide +kernel
+def a1 := apply facts15 1000 (initHeap facts15) (.array 0 none [] false false)
+def a2 := apply facts15 1000 a1.heap (.customize 12 [("max_occurs", .int 3)] none none none none (some [("min_occurs", .int 1)]))
+example : obs1 facts15 a2.heap 12 = obs1 facts15 a1.heap 12 ∧ obs1 facts15 a2.heap 13 = obs1 facts15 a1.heap 13 := by decide +kernel
 -- class M1: __mixin__ = True; x, y   class M2 (mixin): z   class K(M1, M2, A): own c, y  ->  x, y, z, c  (A's fields by base)
 def m1 := apply facts15 1000 (initHeap facts15) (.subclass none "M1" (some "ns") [("x", 0), ("y", 1)] [] none [] true)
 def m2 := apply facts15 1000 m1.heap (.subclass none "M2" (some "ns") [("z", 0)] [] none [] true)
@@ -349,23 +374,23 @@ example : (m4.heap.cls[15]?).map (fun c => keysOf c.fields) = some ["x", "y", "z
 -- A.customize(child_attrs_all={min_occurs: 1}, child_attrs={later: {min_occurs: 2}}); A.append_field('later', Integer):
 -- in the variant the field carries the specific value
 def d1 := apply facts15 1000 (initHeap facts15) (.subclass none "A" none [("a", 0)] [] none [] false)
-def d2 := apply facts15 1000 d1.heap (.customize 12 [] (some [("later", [("min_occurs", .int 2)])]) (some [("min_occurs", .int 1)]) none)
+def d2 := apply facts15 1000 d1.heap (.customize 12 [] (some [("later", [("min_occurs", .int 2)])]) (some [("min_occurs", .int 1)]) none none none)
 def d3 := apply facts15 1000 d2.heap (.append 12 "later" 0)
 example : ((d3.heap.cls[13]?).bind (fun c => (odictGet c.fields "later").map (fun t => attrOf d3.heap t "min_occurs")))
     = some (some (.int 2))
     ∧ ((d3.heap.cls[13]?).bind (fun c => (odictGet c.fields "a").map (fun t => attrOf d3.heap t "min_occurs")))
     = some (some (.int 1)) := by decide +kernel
 -- Unicode(pattern='[a-z]+')(pattern='[0-9]+'): validation follows the second pattern
-def p1 := apply facts15 1000 (initHeap facts15) (.customize 1 [("pattern", .str "[a-z]+")] none none none)
-def p2 := apply facts15 1000 p1.heap (.customize 12 [("pattern", .str "[0-9]+")] none none none)
+def p1 := apply facts15 1000 (initHeap facts15) (.customize 1 [("pattern", .str "[a-z]+")] none none none none none)
+def p2 := apply facts15 1000 p1.heap (.customize 12 [("pattern", .str "[0-9]+")] none none none none none)
 example : attrOf p2.heap 13 "_pattern_re" = some (.str "[0-9]+") ∧ attrOf p2.heap 12 "_pattern_re" = some (.str "[a-z]+") := by
   decide +kernel
 example : (p2.heap.cls[13]?).map (fun c => (verdicts p2.heap c).drop 15) =
     some [false, false, false, false, false, false, true, true, false] := by decide +kernel
 -- Code = Unicode(max_len=32); Code(pk=True); Code(min_len=2): only the pk flavour is a primary key
-def c1 := apply facts15 1000 (initHeap facts15) (.customize 1 [("max_len", .int 32)] none none none)
-def c2 := apply facts15 1000 c1.heap (.customize 12 [("pk", .bool true)] none none none)
-def c3 := apply facts15 1000 c2.heap (.customize 12 [("min_len", .int 2), ("autoincrement", .bool true)] none none none)
+def c1 := apply facts15 1000 (initHeap facts15) (.customize 1 [("max_len", .int 32)] none none none none none)
+def c2 := apply facts15 1000 c1.heap (.customize 12 [("pk", .bool true)] none none none none none)
+def c3 := apply facts15 1000 c2.heap (.customize 12 [("min_len", .int 2), ("autoincrement", .bool true)] none none none none none)
 example : (obs1 facts15 c3.heap 12).map (·.col) = some (some [])
     ∧ (obs1 facts15 c3.heap 13).map (·.col) = some (some [("primary_key", .bool true)])
     ∧ (obs1 facts15 c3.heap 14).map (·.col) = some (some [("autoincrement", .bool true)])
